@@ -61,3 +61,8 @@ def require(cond, what="pre"):
 def assume(cond):
     """assume-post of an abstracted callee: meaningless natively (the real callee runs)"""
     return None
+
+
+def uf_bytes(name, fn, data, maxlen, outlen):
+    """fn(data); the engine keeps it opaque (congruence only) for symbolic data"""
+    return fn(data)
